@@ -5,6 +5,7 @@ import (
 	"go/constant"
 	"go/token"
 	"go/types"
+	"sort"
 	"strings"
 
 	"golang.org/x/tools/go/ssa"
@@ -74,9 +75,97 @@ func cellsToSegs(cs []cell) []seg {
 }
 
 // srcDesc renders the source of a value with integer conversions stripped.
+// phiResolve, when set, maps phis to the value they take on the path under consideration
+// (filled from a Walk); the layout functions then describe that value instead of giving up.
+var phiResolve map[*ssa.Phi]ssa.Value
+
+// curPath, when set, restricts the layout extraction to the instructions and control-flow edges
+// of one explored path set (a Walk under assumptions): writes that the exploration did not reach
+// are ignored and "precedes on every path" is judged on the edges actually taken.
+type pathInfo struct {
+	reached map[ssa.Instruction]bool
+	seq     map[ssa.Instruction]int
+	edges   map[[2]*ssa.BasicBlock]bool
+}
+
+var curPath *pathInfo
+
+func withPath(w *Walk, f func()) {
+	old := curPath
+	curPath = &pathInfo{reached: w.Reached, seq: w.Seq, edges: w.Edges}
+	defer func() { curPath = old }()
+	f()
+}
+
+func onPath(in ssa.Instruction) bool { return curPath == nil || curPath.reached[in] }
+
+// layoutDominates: a is executed before b on every (explored) path reaching b.
+func layoutDominates(a, b ssa.Instruction) bool {
+	if curPath == nil || a.Parent() != b.Parent() {
+		return instrDominates(a, b)
+	}
+	if instrDominates(a, b) {
+		return true
+	}
+	if a.Block() == b.Block() {
+		return false
+	}
+	// search from the entry over the taken edges without passing a's block: b must be unreachable
+	fn := a.Parent()
+	seen := map[*ssa.BasicBlock]bool{}
+	st := []*ssa.BasicBlock{fn.Blocks[0]}
+	for len(st) > 0 {
+		blk := st[len(st)-1]
+		st = st[:len(st)-1]
+		if seen[blk] || blk == a.Block() {
+			continue
+		}
+		seen[blk] = true
+		if blk == b.Block() {
+			return false
+		}
+		for _, su := range blk.Succs {
+			if curPath.edges[[2]*ssa.BasicBlock{blk, su}] {
+				st = append(st, su)
+			}
+		}
+	}
+	return true
+}
+
+// pathSort orders instructions by first visit on the explored path.
+func pathSort(ops []ssa.Instruction) {
+	if curPath == nil {
+		return
+	}
+	sort.SliceStable(ops, func(i, j int) bool { return curPath.seq[ops[i]] < curPath.seq[ops[j]] })
+}
+
+func withPhis(raw map[*ssa.Phi]ssa.Value, f func()) {
+	old := phiResolve
+	phiResolve = raw
+	defer func() { phiResolve = old }()
+	f()
+}
+
 func srcDesc(v ssa.Value) string {
 	for {
 		switch x := v.(type) {
+		case *ssa.Phi:
+			if r, ok := phiResolve[x]; ok && r != ssa.Value(x) {
+				v = r
+				continue
+			}
+		case *ssa.UnOp:
+			// on an explored path: a load of a whole local array is the value last stored to it
+			if al, ok := x.X.(*ssa.Alloc); ok && x.Op == token.MUL && curPath != nil {
+				if _, isArr := al.Type().Underlying().(*types.Pointer).Elem().Underlying().(*types.Array); isArr {
+					if sv := lastWholeStore(al, x); sv != nil {
+						v = sv
+						continue
+					}
+				}
+			}
 		case *ssa.Convert:
 			if _, _, ok := isIntLike(x.Type()); ok {
 				if _, _, ok2 := isIntLike(x.X.Type()); ok2 {
@@ -316,7 +405,7 @@ func (c *Ctx) fixedLayout(root ssa.Value, at ssa.Instruction) ([]cell, *layoutEr
 		for _, in := range b.Instrs {
 			switch x := in.(type) {
 			case *ssa.Store:
-				if r, _, ok := bufRoot(x.Addr); ok && r == root {
+				if r, _, ok := bufRoot(x.Addr); ok && r == root && onPath(in) {
 					ops = append(ops, in)
 				}
 			case *ssa.Call:
@@ -328,18 +417,19 @@ func (c *Ctx) fixedLayout(root ssa.Value, at ssa.Instruction) ([]cell, *layoutEr
 					dest = x.Call.Args[0]
 				}
 				if dest != nil {
-					if r, _, ok := bufRoot(dest); ok && r == root {
+					if r, _, ok := bufRoot(dest); ok && r == root && onPath(in) {
 						ops = append(ops, in)
 					}
 				}
 			}
 		}
 	}
+	pathSort(ops)
 	for i, op := range ops {
-		if op != at && !instrDominates(op, at) {
+		if op != at && !layoutDominates(op, at) {
 			return nil, &layoutErr{"a write to the buffer does not dominate its use (branching encoder)"}
 		}
-		if i > 0 && !instrDominates(ops[i-1], op) {
+		if i > 0 && !layoutDominates(ops[i-1], op) {
 			return nil, &layoutErr{"writes to the buffer are not totally ordered"}
 		}
 	}
@@ -357,8 +447,20 @@ func (c *Ctx) fixedLayout(root ssa.Value, at ssa.Instruction) ([]cell, *layoutEr
 		switch x := op.(type) {
 		case *ssa.Store:
 			_, off, _ := bufRoot(x.Addr)
-			if _, isArr := x.Val.Type().Underlying().(*types.Array); isArr {
-				continue // zero-initialisation of the array
+			if at, isArr := x.Val.Type().Underlying().(*types.Array); isArr {
+				if k, isC := x.Val.(*ssa.Const); isC && k.Value == nil {
+					continue // zero-initialisation of the array
+				}
+				// the whole array assigned from a value (call result, field, resolved phi)
+				d := srcDesc(x.Val)
+				cs := make([]cell, at.Len())
+				for i := range cs {
+					cs[i] = cell{src: d, lsb: int(at.Len()) - 1 - i, set: true}
+				}
+				if e := put(off, cs); e != nil {
+					return nil, e
+				}
+				continue
 			}
 			if e := put(off, bytesOf(x.Val, 1, 0)); e != nil {
 				return nil, e
@@ -516,11 +618,17 @@ func (c *Ctx) LayoutOf(v ssa.Value, at ssa.Instruction, d int) ([]seg, *layoutEr
 		case name == "bytes.Clone" || name == "slices.Clone[[]byte]":
 			return c.LayoutOf(x.Call.Args[0], x, d+1)
 		}
+		if l, err, ok := c.helperLayout(x, 0, at, d); ok {
+			return l, err
+		}
 	case *ssa.Extract:
 		if call, ok := x.Tuple.(*ssa.Call); ok {
 			name := calleeName(&call.Call)
 			if strings.HasSuffix(name, "cryptobyte.Builder).Bytes") && x.Index == 0 {
 				return c.builderLayout(call.Call.Args[0], call)
+			}
+			if l, err, ok := c.helperLayout(call, x.Index, at, d); ok {
+				return l, err
 			}
 		}
 	case *ssa.UnOp:
@@ -546,6 +654,9 @@ func (c *Ctx) LayoutOf(v ssa.Value, at ssa.Instruction, d int) ([]seg, *layoutEr
 			return append(append([]seg{}, a...), b...), nil
 		}
 	case *ssa.Phi:
+		if r, ok := phiResolve[x]; ok && r != ssa.Value(x) {
+			return c.LayoutOf(r, at, d+1)
+		}
 		// the zero-length initial value merged with an appended value in `var x []byte; if..{x = append(x,...)}` is not straight-line
 		return nil, &layoutErr{"value depends on control flow (phi)"}
 	}
@@ -557,10 +668,11 @@ func (c *Ctx) builderLayout(b ssa.Value, at ssa.Instruction) ([]seg, *layoutErr)
 	fn := at.Parent()
 	var out []seg
 	var prev ssa.Instruction
+	var bops []ssa.Instruction
 	for _, blk := range fn.Blocks {
 		for _, in := range blk.Instrs {
 			call, ok := in.(*ssa.Call)
-			if !ok || len(call.Call.Args) == 0 || call.Call.Args[0] != b || in == at {
+			if !ok || len(call.Call.Args) == 0 || call.Call.Args[0] != b || in == at || !onPath(in) {
 				continue
 			}
 			name := calleeName(&call.Call)
@@ -570,7 +682,15 @@ func (c *Ctx) builderLayout(b ssa.Value, at ssa.Instruction) ([]seg, *layoutErr)
 			if strings.HasSuffix(name, ".BytesOrPanic") || strings.HasSuffix(name, ".Bytes") {
 				continue
 			}
-			if !instrDominates(in, at) || (prev != nil && !instrDominates(prev, in)) {
+			bops = append(bops, in)
+		}
+	}
+	pathSort(bops)
+	{
+		for _, in := range bops {
+			call := in.(*ssa.Call)
+			name := calleeName(&call.Call)
+			if !layoutDominates(in, at) || (prev != nil && !layoutDominates(prev, in)) {
 				return nil, &layoutErr{"builder writes are not straight-line before the use"}
 			}
 			prev = in
@@ -634,13 +754,21 @@ func (c *Ctx) hashWrites(h ssa.Value, at ssa.Instruction) ([]seg, *layoutErr) {
 	var out []seg
 	var prev ssa.Instruction
 	n := 0
+	var hops []ssa.Instruction
 	for _, blk := range fn.Blocks {
 		for _, in := range blk.Instrs {
 			call, ok := in.(*ssa.Call)
-			if !ok || !call.Call.IsInvoke() || call.Call.Value != h || call.Call.Method.Name() != "Write" {
+			if !ok || !call.Call.IsInvoke() || call.Call.Value != h || call.Call.Method.Name() != "Write" || !onPath(in) {
 				continue
 			}
-			if !instrDominates(in, at) || (prev != nil && !instrDominates(prev, in)) {
+			hops = append(hops, in)
+		}
+	}
+	pathSort(hops)
+	{
+		for _, in := range hops {
+			call := in.(*ssa.Call)
+			if !layoutDominates(in, at) || (prev != nil && !layoutDominates(prev, in)) {
 				return nil, &layoutErr{"hash writes are not straight-line before the use"}
 			}
 			prev = in
@@ -724,4 +852,106 @@ func singleCapturedValue(fv *ssa.FreeVar) ssa.Value {
 		return nil
 	}
 	return stored
+}
+
+// lastWholeStore: the value of the latest whole-variable store to cell that precedes the load on
+// the explored path (nil when there is none or when element writes intervene).
+func lastWholeStore(cell *ssa.Alloc, load ssa.Instruction) ssa.Value {
+	var best *ssa.Store
+	for _, ref := range *cell.Referrers() {
+		switch x := ref.(type) {
+		case *ssa.Store:
+			if x.Addr != ssa.Value(cell) || !onPath(x) || curPath.seq[x] >= curPath.seq[load] {
+				continue
+			}
+			if best == nil || curPath.seq[x] > curPath.seq[best] {
+				best = x
+			}
+		case *ssa.IndexAddr, *ssa.FieldAddr:
+			// element writes: give up if any is on the path before the load
+			for _, r2 := range *x.(ssa.Value).Referrers() {
+				if st, ok := r2.(*ssa.Store); ok && onPath(st) && curPath.seq[st] < curPath.seq[load] {
+					return nil
+				}
+			}
+		}
+	}
+	if best == nil || !layoutDominates(best, load) {
+		return nil
+	}
+	if k, ok := best.Val.(*ssa.Const); ok && k.Value == nil {
+		return nil
+	}
+	return best.Val
+}
+
+// helperLayout describes result #idx of a call to a module function by the layout of what the
+// function returns, with the callee's parameters replaced by the caller's arguments. ok is false
+// when the callee is not a module function with a single value-returning exit.
+func (c *Ctx) helperLayout(call *ssa.Call, idx int, at ssa.Instruction, d int) ([]seg, *layoutErr, bool) {
+	g := call.Call.StaticCallee()
+	if g == nil || len(g.Blocks) == 0 || g.Pkg == nil || !strings.HasPrefix(g.Pkg.Pkg.Path(), modPath) || d > 6 {
+		return nil, nil, false
+	}
+	if idx >= g.Signature.Results().Len() || !isByteSlice(g.Signature.Results().At(idx).Type()) {
+		return nil, nil, false
+	}
+	var ret *ssa.Return
+	for _, b := range g.Blocks {
+		r, ok := b.Instrs[len(b.Instrs)-1].(*ssa.Return)
+		if !ok {
+			continue
+		}
+		if n := len(r.Results); n > 1 && isErrorType(r.Results[n-1].Type()) {
+			e := unspill(r.Results[n-1])
+			if !isNilConst(e) && definitelyNonNil(e) {
+				continue
+			}
+		}
+		if isNilConst(unspill(r.Results[idx])) {
+			continue
+		}
+		if ret != nil {
+			return nil, &layoutErr{"helper " + short(g) + " has several value-returning exits"}, true
+		}
+		ret = r
+	}
+	if ret == nil {
+		return nil, nil, false
+	}
+	var inner []seg
+	var err *layoutErr
+	oldPath, oldPhi := curPath, phiResolve
+	curPath, phiResolve = nil, nil
+	inner, err = c.LayoutOf(unspill(ret.Results[idx]), ret, d+1)
+	curPath, phiResolve = oldPath, oldPhi
+	if err != nil {
+		return nil, err, true
+	}
+	// substitute parameters
+	var out []seg
+	for _, sg := range inner {
+		pi := -1
+		for i, p := range g.Params {
+			if sg.src == p.Name() {
+				pi = i
+			}
+		}
+		if pi < 0 || pi >= len(call.Call.Args) {
+			out = append(out, sg)
+			continue
+		}
+		arg := call.Call.Args[pi]
+		if sg.vari {
+			al, e := c.LayoutOf(arg, call, d+1)
+			if e != nil {
+				return nil, e, true
+			}
+			out = append(out, al...)
+			continue
+		}
+		sg.src = srcDesc(arg)
+		out = append(out, sg)
+	}
+	return out, nil, true
 }
